@@ -77,6 +77,32 @@ def catalogue(tier):
     return sc
 
 
+def symptom(blk):
+    """what went wrong in a concurrent block, as far as it can be read off the record (used to recognise listed findings)"""
+    if blk is None:
+        return "none"
+    if blk.get("ret") == "deadlock":
+        return "deadlock"
+    for c, ms in blk.get("out", []):
+        seen_relay = False
+        for m in ms:
+            if m["t"].endswith("_BROADCAST"):
+                seen_relay = True
+            if m["t"] == "SESSION_STATE" and seen_relay:
+                return "relay_before_snapshot"      # D9: the snapshot was assembled before, and sent after, a relay
+    setters = {}
+    for lab in blk.get("sched") or []:
+        t, what = lab.split(":", 1)
+        if "SetModuleState" in what:
+            setters.setdefault(t, 0)
+            setters[t] += 1
+    if len(setters) >= 2:
+        return "module_state_split"                 # D13: two overlapping joins each created the module states
+    if any(c.get("orphan") for c in blk.get("post", {}).get("conns", [])):
+        return "orphan"
+    return "other"
+
+
 INVS = {"C07": ["Ok_C07"], "C10": ["Ok_C10"], "C01": ["Ok_C01c", "Ok_C01q"], "C02": ["Ok_C02c"], "C09": ["Ok_C09c"]}
 # (random blocks use up to 16 connections)
 
@@ -115,10 +141,14 @@ def run_conc(work, prop, tier, replay_scenarios=None):
         cid = fr["hid"].split("#")[0]
         fr["sig"]["cid"] = cid
         fr["scenario"] = by.get(cid)
-        # the schedule that produced this outcome, for the replay file
+        # symptoms of the whole failing history (its Block record): they identify the listed findings
         lines = open(fr["chunk"]).readlines()
-        for ln in lines:
+        blk = None
+        for ln in lines[max(0, fr["start"]):fr["end"]]:
             r = json.loads(ln)
-            if r.get("step") == "Block" and r.get("cid") == cid and fr["hid"] == r.get("cid") + "#" + fr["hid"].split("#")[1]:
-                pass
+            if r.get("step") == "Block":
+                blk = r
+        fr["sig"]["symptom"] = symptom(blk)
+        if blk is not None:
+            fr["block"] = dict(sched=blk.get("sched"), choices=blk.get("choices"), out=blk.get("out"), rets=blk.get("rets"))
     return dict(fails=fails, summaries=summaries, outcomes=n, scenarios=len(scs), trace=allp)
